@@ -1,12 +1,80 @@
 import ApdVerif.Spec.Agrees
+import ApdVerif.Lemmas.QuoLemmas
 /-! # Quo agrees with the specification (scaled integer division, remainder-based rounding,
 carry renormalisation, sticky digit in the subnormal range) -/
+set_option linter.unusedSimpArgs false
+set_option linter.unusedVariables false
 namespace Apd.Props
 open Apd Apd.Oracle
 
+/-- zero dividend: the result is a zero with the ideal exponent, clamped into range -/
+theorem quo_zero_agrees (c : Ctx) (hc : c.WF) (neg : Bool) (shift : Int) (Y : Nat)
+    (hns : NoSys (setExponent c ⟨.finite, neg, 0, 0⟩ {} [shift]).2) :
+    Agrees c { neg := neg, num := 0, den := Y, e10 := shift }
+      (setExponent c ⟨.finite, neg, 0, 0⟩ {} [shift]).1 (setExponent c ⟨.finite, neg, 0, 0⟩ {} [shift]).2 := by
+  obtain ⟨hP, hPmax, hmax, hmin, hmin0⟩ := hc
+  rw [setExponent_noSys _ _ _ _ hns]
+  have e : sumInts [shift] = shift := by simp [sumInts]
+  have hd0 : ndigits 0 = 1 := by decide
+  rw [e]
+  have hs : specRound c { neg := neg, num := 0, den := Y, e10 := shift } = { neg := neg, m := 0, q := shift } := by
+    simp [specRound]
+  unfold Agrees
+  rw [hs]
+  unfold seCore
+  simp only [Dec.isZero, hd0]
+  by_cases h1 : shift + ((1 : Nat) : Int) - 1 < c.emin
+  · rw [if_pos h1]
+    by_cases h2 : shift < c.emin - ((c.prec : Int) - 1)
+    · rw [if_pos h2]
+      simp [SpecOut.matches, FlagsOK, fits, seFinish, SpecOut.underflow, Cond.cInexact, Cond.cRounded,
+        Cond.cSubnormal, Cond.cClamped, Cond.cUnderflow, hd0]
+      omega
+    · rw [if_neg h2]
+      simp [SpecOut.matches, FlagsOK, fits, seFinish, SpecOut.underflow, Cond.cInexact, Cond.cRounded,
+        Cond.cSubnormal, Cond.cClamped, Cond.cUnderflow, hd0]
+      omega
+  · rw [if_neg h1]
+    by_cases h2 : shift + ((1 : Nat) : Int) - 1 > c.emax
+    · rw [if_pos h2]
+      simp [SpecOut.matches, FlagsOK, fits, seFinish, SpecOut.underflow, Cond.cInexact, Cond.cRounded,
+        Cond.cSubnormal, Cond.cClamped, Cond.cUnderflow, hd0]
+      omega
+    · rw [if_neg h2]
+      simp [SpecOut.matches, FlagsOK, fits, seFinish, SpecOut.underflow, Cond.cInexact, Cond.cRounded,
+        Cond.cSubnormal, Cond.cClamped, Cond.cUnderflow, hd0]
+      omega
 theorem C01_quo (c : Ctx) (hc : c.WF) (x y : Dec) (hx : x.form = .finite) (hy : y.form = .finite)
     (hy0 : y.coeff ≠ 0) (h : Delivered (quoOp c x y).err) :
     Agrees c (exactQuo x y) (quoOp c x y).d (quoOp c x y).fl := by
-  sorry
+  have hP := hc.1
+  have hp : c.prec ≠ 0 := by omega
+  by_cases hx0 : x.coeff = 0
+  · rw [quoOp_zero c x y hx hy hy0 hp hx0] at h ⊢
+    simp only [finish] at h ⊢
+    have hns := noSys_of_delivered _ _ h
+    have e : exactQuo x y = { neg := x.neg != y.neg, num := 0, den := y.coeff, e10 := x.exp - y.exp } := by
+      simp [exactQuo, hx0]
+    rw [e]
+    exact quo_zero_agrees c hc _ _ _ hns
+  · rw [quoOp_eq c x y hx hy hy0 hp hx0] at h ⊢
+    simp only [finish] at h ⊢
+    have hns := noSys_of_delivered _ _ h
+    have hX : 0 < x.coeff := Nat.pos_of_ne_zero hx0
+    have hY : 0 < y.coeff := Nat.pos_of_ne_zero hy0
+    obtain ⟨s1, s2, s3, s4, s5⟩ := quo_scale x.coeff y.coeff hX hY
+    have eP : ((c.prec : Int) - 1).toNat = c.prec - 1 := by omega
+    have hlo : qDivisor x.coeff y.coeff * 10 ^ (c.prec - 1) ≤ qDividend c.prec x.coeff y.coeff := by
+      unfold qDividend; rw [eP]; exact Nat.mul_le_mul_right _ s2
+    have hhi : qDividend c.prec x.coeff y.coeff < qDivisor x.coeff y.coeff * 10 ^ c.prec := by
+      unfold qDividend; rw [eP, pow_pred_mul c.prec hP]
+      have := Nat.mul_lt_mul_of_pos_right s3 (Nat.pow_pos (n := c.prec - 1) (show 0 < 10 by decide))
+      calc qDividend1 x.coeff y.coeff * 10 ^ (c.prec - 1)
+          < 10 * qDivisor x.coeff y.coeff * 10 ^ (c.prec - 1) := this
+        _ = qDivisor x.coeff y.coeff * (10 * 10 ^ (c.prec - 1)) := by ring
+    exact quo_core c hc _ _ _ x.coeff y.coeff _ _ hx0 hY s1 hlo hhi s4
+      (quo_cross c.prec x.coeff y.coeff hP hX hY) hns
 
 end Apd.Props
+
+#print axioms Apd.Props.C01_quo
